@@ -540,7 +540,7 @@ struct judge_t
         {
             maxima[slot].second = std::max(maxima[slot].second, static_cast<double>(std::max<ld>(0, err - want.widen) / std::max(tol, tiny)));
         }
-        if (!(err <= 10 * tol + want.widen))
+        if (!(err <= tol + want.widen)) // 1e-9 relative is the property's own bound: no further band
         {
             if (!fail)
             {
